@@ -212,7 +212,7 @@ fn arith_part(rep: &mut Report, viol: &mut Viol, drv: &mut Driver, seed: u64, th
             // quick tier: a sample of each (operator, type, operand class); thorough: all
             let n = per_group.entry((c.op, c.ty, trap_class(c.ty, c.a, c.b))).or_insert(0);
             *n += 1;
-            if thorough || *n <= 4 {
+            if thorough || *n <= 24 {
                 singles.push(c);
             } else {
                 rep.hist("arith-predicted-trap-not-run(quick tier)", format!("{} {}", OPS[c.op].0, c.ty.name()));
